@@ -1398,15 +1398,15 @@ func (self *LockDB) GetOrNewLockManager(command *protocol.LockCommand) *LockMana
 	fastValue := &self.fastLocks[fastHash%self.fastKeyCount]
 
 	if atomic.CompareAndSwapUint32(&fastValue.lock, 0, 1) {
-		if atomic.LoadUint32(&fastValue.count) > 0 {
-			self.mGlock.RLock()
-			if lockManager, ok := self.locks[command.LockKey]; ok && atomic.LoadUint32(&lockManager.refCount) != 0xffffffff {
-				self.mGlock.RUnlock()
-				atomic.CompareAndSwapUint32(&fastValue.lock, 1, 0)
-				return lockManager
-			}
+		// always look into the slow map: the slot's key count may not yet include a key
+		// that a concurrent request is adding to the slow map at this moment
+		self.mGlock.RLock()
+		if lockManager, ok := self.locks[command.LockKey]; ok && atomic.LoadUint32(&lockManager.refCount) != 0xffffffff {
 			self.mGlock.RUnlock()
+			atomic.CompareAndSwapUint32(&fastValue.lock, 1, 0)
+			return lockManager
 		}
+		self.mGlock.RUnlock()
 
 		freeLockManagerTail := atomic.AddUint32(&self.freeLockManagerTail, 1) % self.maxFreeLockManagerCount
 		lockManager := self.freeLockManagers[freeLockManagerTail]
@@ -1470,6 +1470,19 @@ func (self *LockDB) GetOrNewLockManager(command *protocol.LockCommand) *LockMana
 		atomic.StoreUint32(&fastValue.lock, 2)
 		atomic.AddUint32(&lockManager.state.KeyCount, 1)
 		return lockManager
+	}
+	switch atomic.LoadUint32(&fastValue.lock) {
+	case 1:
+		// another request is publishing a manager in the fast slot (it may be one for this very
+		// key, and it looked into the slow map before we got here): wait for the outcome and start over
+		self.mGlock.Unlock()
+		return self.GetOrNewLockManager(command)
+	case 2:
+		fastLockManager := fastValue.manager
+		if fastLockManager != nil && fastLockManager.lockKey == command.LockKey && atomic.LoadUint32(&fastLockManager.refCount) != 0xffffffff {
+			self.mGlock.Unlock()
+			return fastLockManager
+		}
 	}
 
 	freeLockManagerTail := atomic.AddUint32(&self.freeLockManagerTail, 1) % self.maxFreeLockManagerCount
